@@ -337,7 +337,7 @@ func cmdCheckCases(args []string) {
 				default:
 					_, rec := rapid.VerifRunSeed(nil, r.next(), false, pre)
 					if r.chance(50) {
-						rec = rapid.VerifPrune(rec)
+						rec, _ = safePrune(rec)
 					}
 					buf = append(buf, rec.Data...)
 					if r.chance(15) && len(buf) > 0 {
@@ -508,6 +508,19 @@ func inCleanup(events []string, k int) bool {
 	return n > 0
 }
 
+// fatalSite: kind and site id of the last fatal / panic signal of an invocation ("" when it has none)
+func fatalSite(events []string) (string, int) {
+	for k := len(events) - 1; k >= 0; k-- {
+		e := events[k]
+		if strings.HasPrefix(e, "(USignal KFatal") || strings.HasPrefix(e, "(USignal KPanic") {
+			f := strings.Fields(strings.TrimSuffix(e, ")"))
+			id, _ := strconv.Atoi(f[len(f)-1])
+			return f[1], id
+		}
+	}
+	return "", 0
+}
+
 func hasSignal(r *Run) bool {
 	for _, e := range r.Events {
 		if strings.HasPrefix(e, "(USignal") {
@@ -668,6 +681,30 @@ func cmdCheckOracle(args []string) {
 			case "failed", "panic":
 				if !anySignal && (reUser.MatchString(o.Msg) || strings.Contains(o.Msg, "called")) {
 					add("C11", "a failure was reported although no invocation signalled one", p, checks, base, sh, o.Msg, i)
+				}
+				// C05 from the harness's own event log (independent of rapid's tracebacks): the fatal failure of the final
+				// replay is raised at the site (trampoline id + recursion depth) of the failure originally found
+				if firstSignal >= 0 && len(o.Runs) > 0 {
+					k1, id1 := fatalSite(o.Runs[firstSignal].Events)
+					k2, id2 := fatalSite(o.Runs[len(o.Runs)-1].Events)
+					if k1 != "" && k2 != "" && (k1 != k2 || id1 != id2) {
+						add("C05", "the minimized failure is raised at another site than the failure found", p, checks, base, sh,
+							fmt.Sprintf("found: %s site %d (invocation %d); reported: %s site %d", k1, id1, firstSignal, k2, id2), i)
+					}
+				}
+				// the test case presented as the falsifying one (the final replay) is one in which a failure was signalled;
+				// a case that merely skipped is never the reported one
+				knownClass := false // the two open findings (known_findings.json): their counterexample loses the failure
+				for _, rr := range o.Runs {
+					knownClass = knownClass || rejectedAttemptEffects(rr.Events) != ""
+				}
+				if strings.Contains(o.Msg, "invalid data") || (len(o.Runs) > 0 && anySignal && !knownClass && !hasSignal(o.Runs[len(o.Runs)-1]) &&
+					(reUser.MatchString(o.Msg) || strings.Contains(o.Msg, "called"))) {
+					last := ""
+					if len(o.Runs) > 0 {
+						last = runEndedHow(o.Runs[len(o.Runs)-1])
+					}
+					add("C11", "the test case presented as falsifying is one in which nothing failed", p, checks, base, sh, o.Msg+" | final replay: "+last, i)
 				}
 				// C01/C05 through the export: the buffer doCheck returns must fail with the error it returns
 				failingEvents := ""
